@@ -4,4 +4,4 @@
 From Coq Require Import Extraction ExtrOcamlBasic ZArith List.
 From Alliance Require Import Num KMap Types Monad Model Step IO Spec.
 Extraction Language OCaml.
-Extraction "model.ml" init_state step parse_op print_state parse_state run_trace check_step with_ctx step_err.
+Extraction "model.ml" init_state step parse_op print_state parse_state run_trace check_step with_ctx step_err c04_detail probe_exit probe_claim probe_enter reported_balance.
